@@ -103,6 +103,21 @@ Section Proofs.
   Lemma save_from_length : forall bs h t, length (save_from h bs t) = length bs + length t.
   Proof. induction bs; intros; cbn [save_from length]; [reflexivity|]. rewrite IHbs. cbn. lia. Qed.
 
+  Lemma far32_near : forall th hc r2, hc <= th -> th - hc <= r2 -> (N.of_nat th < 4294967296)%N -> far32 th hc r2 = false.
+  Proof.
+    intros th hc r2 Hle Hd Hth. unfold far32.
+    replace (N.of_nat th + 4294967296 - N.of_nat hc)%N with (N.of_nat (th - hc) + 1 * 4294967296)%N by lia.
+    rewrite N.mod_add by discriminate. rewrite N.mod_small by lia. apply N.ltb_ge. lia.
+  Qed.
+
+  (* a common block above the offered block's height: the uint32 difference wraps and the fast sync is abandoned *)
+  Lemma far32_above : forall th hc r2, th < hc -> (N.of_nat hc < 4294967296)%N -> (N.of_nat r2 + N.of_nat (hc - th) < 4294967296)%N ->
+    far32 th hc r2 = true.
+  Proof.
+    intros th hc r2 Hlt Hh Hr. unfold far32.
+    rewrite N.mod_small by lia. apply N.ltb_lt. lia.
+  Qed.
+
   (* ---------------------------------------------------------------- convergence with an honest peer *)
   Ltac pre_checks Hc Hn :=
     rewrite Hc, (index_of_mid _ _ _ Hn).
@@ -119,17 +134,17 @@ Section Proofs.
   (* own chain = pre ++ cid :: own, peer's chain = pre ++ cid :: blocks; the peer answers cid and delivers blocks *)
   Lemma honest_peer_converges_fast : forall rs cs n pre cid own blocks th r2,
     chain n = pre ++ cid :: own -> ~ In cid pre ->
-    finalized n <= length pre -> length own <= r2 -> th - length pre <= r2 ->
+    finalized n <= length pre -> length own <= r2 -> length pre <= th -> th - length pre <= r2 -> (N.of_nat th < 4294967296)%N ->
     all_valid valid (pre ++ [cid]) blocks ->
     fast_sync valid rs cs n (Some cid) blocks EndOk th r2 =
     ({| chain := pre ++ cid :: blocks; temp := []; finalized := finalized n; banned := banned n |}, Synced).
   Proof.
-    intros rs cs n pre cid own blocks th r2 Hc Hn Hf Ho Ht Hv. unfold fast_sync. assert (Hi : index_of cid (chain n) = Some (length pre)) by (rewrite Hc; apply index_of_mid; exact Hn).
+    intros rs cs n pre cid own blocks th r2 Hc Hn Hf Ho Hle Ht Hth Hv. unfold fast_sync. assert (Hi : index_of cid (chain n) = Some (length pre)) by (rewrite Hc; apply index_of_mid; exact Hn).
     assert (Hl : length (chain n) = length pre + S (length own)) by (rewrite Hc, app_length; reflexivity).
     rewrite Hi, Hl.
     assert (E1 : (length pre <? finalized n) = false) by (apply Nat.ltb_ge; lia). rewrite E1.
     assert (E2 : (r2 <? length pre + S (length own) - 1 - length pre) = false) by (apply Nat.ltb_ge; lia).
-    assert (E3 : (r2 <? th - length pre) = false) by (apply Nat.ltb_ge; lia). rewrite E2, E3. cbn [orb].
+    assert (E3 : far32 th (length pre) r2 = false) by (apply far32_near; assumption). rewrite E2, E3. cbn [orb].
     set (n0 := if cs then clear_temp n else n).
     assert (Hc0 : chain n0 = pre ++ cid :: own) by (subst n0; destruct cs; exact Hc).
     assert (Hf0 : finalized n0 <= length pre) by (subst n0; destruct cs; exact Hf).
@@ -150,6 +165,20 @@ Section Proofs.
     unfold clear_temp, with_chain. cbn [chain finalized banned]. rewrite <- app_assoc. reflexivity.
   Qed.
 
+  (* block sync never restores: after an invalid block (or a broken stream) the node is left on the common block plus
+     the blocks applied so far, its own blocks only in the temp table, the peer not banned *)
+  Lemma block_sync_failure_shape : forall n pre cid own good bad rest e,
+    chain n = pre ++ cid :: own -> ~ In cid pre -> finalized n <= length pre ->
+    all_valid valid (pre ++ [cid]) good -> valid ((pre ++ [cid]) ++ good) bad = false ->
+    block_sync valid n (Some cid) (good ++ bad :: rest) e =
+    ({| chain := pre ++ cid :: good; temp := save_from (S (length pre)) own (temp n); finalized := finalized n; banned := banned n |}, Failed).
+  Proof.
+    intros n pre cid own good bad rest e Hc Hn Hf Hg Hbad. unfold block_sync.
+    assert (Hi : index_of cid (chain n) = Some (length pre)) by (rewrite Hc; apply index_of_mid; exact Hn). rewrite Hi.
+    rewrite (delete_till_mid n pre cid own true Hc Hf). cbn [negb chain]. rewrite (apply_all_fails _ _ _ _ Hg Hbad).
+    unfold with_chain. cbn [temp finalized banned]. rewrite <- app_assoc. reflexivity.
+  Qed.
+
   (* ---------------------------------------------------------------- failing fast sync *)
   Lemma stale_save_from : forall bs h t hc, hc < h -> stale t hc = false -> stale (save_from h bs t) hc = false.
   Proof.
@@ -162,19 +191,19 @@ Section Proofs.
      block sits and whatever temp blocks earlier syncs left behind, the original chain is back and the peer is banned *)
   Lemma failed_fast_sync_restores_and_bans : forall n pre cid own good bad rest th r2,
     chain n = pre ++ cid :: own -> ~ In cid pre ->
-    finalized n <= length pre -> length own <= r2 -> th - length pre <= r2 ->
+    finalized n <= length pre -> length own <= r2 -> length pre <= th -> th - length pre <= r2 -> (N.of_nat th < 4294967296)%N ->
     all_valid valid (pre ++ [cid]) good -> valid ((pre ++ [cid]) ++ good) bad = false ->
     all_valid valid (pre ++ [cid]) own ->
     let '(n', o) := fast_sync valid false true n (Some cid) (good ++ bad :: rest) EndOk th r2 in
     chain n' = chain n /\ banned n' = true /\ o = Failed.
   Proof.
-    intros n pre cid own good bad rest th r2 Hc Hn Hf Ho Ht Hg Hbad Hown. unfold fast_sync.
+    intros n pre cid own good bad rest th r2 Hc Hn Hf Ho Hle Ht Hth Hg Hbad Hown. unfold fast_sync.
     assert (Hi : index_of cid (chain n) = Some (length pre)) by (rewrite Hc; apply index_of_mid; exact Hn).
     assert (Hl : length (chain n) = length pre + S (length own)) by (rewrite Hc, app_length; reflexivity).
     rewrite Hi, Hl.
     assert (E1 : (length pre <? finalized n) = false) by (apply Nat.ltb_ge; lia). rewrite E1.
     assert (E2 : (r2 <? length pre + S (length own) - 1 - length pre) = false) by (apply Nat.ltb_ge; lia).
-    assert (E3 : (r2 <? th - length pre) = false) by (apply Nat.ltb_ge; lia). rewrite E2, E3. cbn [orb].
+    assert (E3 : far32 th (length pre) r2 = false) by (apply far32_near; assumption). rewrite E2, E3. cbn [orb].
     rewrite (delete_till_mid (clear_temp n) pre cid own true Hc Hf). cbn [negb chain clear_temp temp].
     rewrite (apply_all_fails _ _ _ _ Hg Hbad).
     set (n2 := with_chain _ _).
@@ -191,18 +220,18 @@ Section Proofs.
      invalid and no temp block was left behind *)
   Lemma failed_fast_sync_orig_first_block_case : forall n pre cid own bad rest th r2,
     chain n = pre ++ cid :: own -> ~ In cid pre -> temp n = [] ->
-    finalized n <= length pre -> length own <= r2 -> th - length pre <= r2 ->
+    finalized n <= length pre -> length own <= r2 -> length pre <= th -> th - length pre <= r2 -> (N.of_nat th < 4294967296)%N ->
     valid (pre ++ [cid]) bad = false -> all_valid valid (pre ++ [cid]) own ->
     let '(n', o) := fast_sync valid true false n (Some cid) (bad :: rest) EndOk th r2 in
     chain n' = chain n /\ banned n' = true /\ o = Failed.
   Proof.
-    intros n pre cid own bad rest th r2 Hc Hn Htmp Hf Ho Ht Hbad Hown. unfold fast_sync.
+    intros n pre cid own bad rest th r2 Hc Hn Htmp Hf Ho Hle Ht Hth Hbad Hown. unfold fast_sync.
     assert (Hi : index_of cid (chain n) = Some (length pre)) by (rewrite Hc; apply index_of_mid; exact Hn).
     assert (Hl : length (chain n) = length pre + S (length own)) by (rewrite Hc, app_length; reflexivity).
     rewrite Hi, Hl.
     assert (E1 : (length pre <? finalized n) = false) by (apply Nat.ltb_ge; lia). rewrite E1.
     assert (E2 : (r2 <? length pre + S (length own) - 1 - length pre) = false) by (apply Nat.ltb_ge; lia).
-    assert (E3 : (r2 <? th - length pre) = false) by (apply Nat.ltb_ge; lia). rewrite E2, E3. cbn [orb].
+    assert (E3 : far32 th (length pre) r2 = false) by (apply far32_near; assumption). rewrite E2, E3. cbn [orb].
     rewrite (delete_till_mid n pre cid own true Hc Hf). cbn [negb chain]. rewrite Htmp.
     cbn [apply_all]. rewrite Hbad.
     set (n2 := with_chain _ _).
@@ -213,6 +242,17 @@ Section Proofs.
     rewrite save_from_length. cbn [length]. rewrite Nat.add_0_r.
     destruct (restore_saved own (pre ++ [cid]) (S (length pre)) Hown) as [t' Ht']. rewrite Ht'.
     unfold ban, with_chain_temp. cbn [chain banned]. split; [rewrite Hc, <- app_assoc; reflexivity|]. split; reflexivity.
+  Qed.
+
+  (* a peer naming a common block ABOVE the height of the block it offered: nothing is touched *)
+  Lemma fast_sync_common_above_block_aborts : forall rs cs n cid hc blocks e th r2,
+    index_of cid (chain n) = Some hc -> finalized n <= hc -> th < hc ->
+    (N.of_nat hc < 4294967296)%N -> (N.of_nat r2 + N.of_nat (hc - th) < 4294967296)%N ->
+    fast_sync valid rs cs n (Some cid) blocks e th r2 = (n, Aborted).
+  Proof.
+    intros rs cs n cid hc blocks e th r2 Hi Hf Hlt Hh Hr. unfold fast_sync. rewrite Hi.
+    assert (E1 : (hc <? finalized n) = false) by (apply Nat.ltb_ge; lia). rewrite E1.
+    rewrite (far32_above th hc r2 Hlt Hh Hr). rewrite orb_true_r. reflexivity.
   Qed.
 
   (* a peer whose stream breaks or carries a statelessly invalid block costs a fast-syncing node nothing *)
